@@ -90,7 +90,7 @@ func (x *FnExec) call(fr *frame, n *node, in ssa.Instruction, c *ssa.CallCommon,
 	case c.IsInvoke():
 		recv := x.value(fr, env, c.Value)
 		x.panicObl("nil", reach, not(eq(recv.S, "inil")), "method call on nil interface "+c.Value.Name()+"."+c.Method.Name(), in.Pos())
-		if spec := x.eng.ifaceSpec(c); spec != nil {
+		if spec := x.eng.ifaceSpec(c); spec != nil && x.eng.specActive(spec) {
 			res, err = x.applySpec(fr, n, in, spec, nil, c.Method.Type().(*types.Signature), append([]Val{recv}, args...), reach, key, hint, resT, true)
 		} else if lm := x.eng.libInvokeModel(c); lm != nil {
 			res, err = lm.apply(x, fr, n, in, c, append([]Val{recv}, args...), reach, hint)
@@ -144,6 +144,11 @@ func (x *FnExec) staticCall(fr *frame, n *node, in ssa.Instruction, callee *ssa.
 	st := n.st
 	// nil receiver check for pointer-receiver methods is the callee's business (Go allows nil receivers)
 	spec := x.eng.specFor(callee)
+	if spec != nil && !spec.Inline && !x.eng.specActive(spec) {
+		// a contract that belongs to another property takes no part in this property's argument: neither its
+		// precondition is demanded here nor its postcondition assumed — the callee is treated as uncontracted
+		spec = nil
+	}
 	if spec != nil && !spec.Inline {
 		return x.applySpec(fr, n, in, spec, callee, callee.Signature, args, reach, key, hint, resT, false)
 	}
